@@ -46,7 +46,7 @@ ASSUMPTIONS = [
     "CPython 3.12 asyncio FIFO ready queue; one step = one `await asyncio.sleep(0)` of the driver",
     "the 20-line sequential model in this file and the history invariants are the specification",
 ]
-MINIMUMS = {"handoff_while_pending": 100, "cancel_after_handoff": 10, "monitor:model": 1000, "monitor:drain": 1000, "long_backlog_drains": 60, "finished_with_falsy_exception": 200, "bulk_backlogs_drained": 6}
+MINIMUMS = {"handoff_while_pending": 100, "cancel_after_handoff": 10, "monitor:model": 1000, "monitor:drain": 1000, "long_backlog_drains": 60, "finished_with_falsy_exception": 200, "bulk_backlogs_drained": 6, "producer_between_loop_runs": 7}
 JOBS = {"quick": 4, "thorough": 16}
 
 OPS = ("E1", "E3", "F", "FX", "C", "R", "X", "S")
@@ -435,10 +435,78 @@ async def run_bulk(R: Recorder, queue_cls: Any, n: int, via: str) -> None:
     R.monitor("reason-identity", terminal is reason, where={"mode": "bulk", "kind": "wrong-reason"}, detail=f"after the buffer the receive ended with {terminal!r}, the queue was finished with {reason!r}", case=case)
 
 
+def run_between_runs(R: Recorder, queue_cls: Any, script: list[Any]) -> None:
+    """the producer is plain synchronous code on the loop's own thread, acting while the loop is NOT running (between two
+    run_until_complete calls) on a queue built for that loop: script = ["E", n] enqueue n | ["F"] / ["FX"] finish | ["R", k] run the loop and receive k"""
+    case = {"between_runs": script}
+    loop = asyncio.new_event_loop()
+    enq: list[int] = []
+    received: list[Any] = []
+    terminal: Any = None
+    reason: Any = None
+    problems: list[str] = []
+    watchdog: list[str] = []  # wall-clock watchdog: its firing is inconclusive, never a verdict
+    try:
+        q = queue_cls(loop=loop)
+        nxt = itertools.count(1)
+
+        async def receive(k: int) -> None:
+            nonlocal terminal
+            for _ in range(k):
+                try:
+                    received.append(await asyncio.wait_for(q.__anext__(), 30))
+                except (StopAsyncIteration, Boom) as exc:
+                    terminal = exc
+                    return
+                except asyncio.TimeoutError:
+                    watchdog.append(f"script {script}: a receive got nothing for 30 s of wall-clock time")
+                    return
+
+        for op in script:
+            if op[0] == "E":
+                xs = [next(nxt) for _ in range(op[1])]
+                try:
+                    q.enqueue(*xs)
+                    enq.extend(xs)
+                except RuntimeError as exc:
+                    if reason is None:
+                        problems.append(f"enqueue on an open queue raised {exc!r}")
+            elif op[0] in ("F", "FX"):
+                if reason is None:
+                    reason = Boom("between") if op[0] == "FX" else "end"
+                q.finish(reason if op[0] == "FX" and isinstance(reason, Boom) else None)
+            else:
+                loop.run_until_complete(receive(op[1]))
+        if reason is None:
+            reason = "end"
+            q.finish()
+        loop.run_until_complete(receive(len(enq) + 2))
+    except BaseException as exc:  # noqa: BLE001
+        problems.append(f"script raised {exc!r}")
+    finally:
+        loop.close()
+    R.case(case, nontrivial=True)
+    R.count("producer_between_loop_runs")
+    if watchdog:
+        R.inconclusive.extend(watchdog)
+        return
+    ok_reason = (reason == "end" and type(terminal) is StopAsyncIteration) or (isinstance(reason, Boom) and terminal is reason)
+    R.monitor("drain", received == enq and not problems, where={"mode": "between-runs", "kind": "lost" if len(received) < len(enq) else "extra"},
+              detail=f"script {script}: enqueued {enq}, received {received}, problems {problems}", case=case)
+    R.monitor("reason-identity", ok_reason, where={"mode": "between-runs", "kind": "wrong-reason"}, detail=f"finished with {reason!r}, the receive after the buffer ended with {terminal!r}", case=case)
+
+
+BETWEEN = [[["E", 3], ["F"]], [["E", 2], ["FX"]], [["E", 1], ["R", 1], ["E", 2], ["F"]], [["R", 0], ["E", 3], ["R", 2], ["E", 1], ["FX"]], [["E", 2], ["R", 1], ["F"], ["E", 1]], [["F"]], [["E", 5], ["R", 5], ["E", 1], ["F"]]]
+
+
 def run(R: Recorder, tier: str, seed: int, shard: int, nshards: int) -> None:
     from haiway.utils.queue import AsyncQueue
 
     R.flags["exhaustive_core"] = f"all op sequences of length <= {EXH_LEN[tier]} over {len(OPS)} ops, both modes"
+
+    for j, script in enumerate(BETWEEN):
+        if j % nshards == shard:
+            run_between_runs(R, AsyncQueue, script)
 
     async def main(loop: asyncio.AbstractEventLoop) -> None:
         for k, n in enumerate(BULK[tier]):
@@ -479,6 +547,9 @@ async def run_filtered(queue_cls: Any, loop: asyncio.AbstractEventLoop, mode: st
 def replay(R: Recorder, case: dict[str, Any]) -> None:
     from haiway.utils.queue import AsyncQueue
 
+    if "between_runs" in case:
+        run_between_runs(R, AsyncQueue, case["between_runs"])
+        return
     if "bulk" in case:
         async def bulk_main(loop: asyncio.AbstractEventLoop) -> None:
             await run_bulk(R, AsyncQueue, case["bulk"], case["via"])
